@@ -875,6 +875,85 @@ func init() {
 		}
 		return r
 	})
+	// bytes.Index / strings.Index (assembly + Rabin-Karp underneath): first position at which the
+	// needle occurs, as an ite chain over the concrete-length haystack
+	index := func(fr *frame, h, n SliceVal) Value {
+		e := fr.e
+		tb := e.tb
+		if !h.Len.IsConst() {
+			h.Len = tb.Const(64, e.concretize(h.Len, 1<<12))
+		}
+		if !n.Len.IsConst() {
+			n.Len = tb.Const(64, e.concretize(n.Len, 1<<12))
+		}
+		hl, nl := int64(h.Len.C), int64(n.Len.C)
+		if nl == 0 {
+			return tb.I64(0)
+		}
+		r := tb.I64(-1)
+		for i := hl - nl; i >= 0; i-- {
+			var eqs []*Term
+			for j := int64(0); j < nl; j++ {
+				eqs = append(eqs, tb.Eq(e.sliceAt(h, tb.I64(i+j)), e.sliceAt(n, tb.I64(j))))
+			}
+			r = tb.Ite(tb.And(eqs...), tb.I64(i), r)
+		}
+		return r
+	}
+	view := func(fr *frame, v Value) SliceVal {
+		if s, ok := v.(SliceVal); ok {
+			if s.Obj == nil {
+				return fr.e.concSlice(nil)
+			}
+			return s
+		}
+		s := fr.e.strView(v)
+		if s.Obj == nil {
+			return fr.e.concSlice(nil)
+		}
+		return s
+	}
+	for _, n := range []string{"bytes.Index", "strings.Index", "internal/bytealg.Index", "internal/bytealg.IndexString"} {
+		reg(n, func(fr *frame, a []Value) Value { return index(fr, view(fr, a[0]), view(fr, a[1])) })
+	}
+	// bytes.EqualFold / strings.EqualFold: exact shortcuts for identical strings and for all-ASCII
+	// operands (where simple folding is the A-Z/a-z case bit); anything else runs the real code
+	for _, n := range []string{"bytes.EqualFold", "strings.EqualFold"} {
+		n := n
+		reg(n, func(fr *frame, a []Value) Value {
+			e := fr.e
+			tb := e.tb
+			x, y := view(fr, a[0]), view(fr, a[1])
+			if e.Decide(e.bytesEq(x, y)) {
+				return tb.T
+			}
+			if x.Len.IsConst() && y.Len.IsConst() && x.Len.C <= 256 && y.Len.C <= 256 {
+				ascii := tb.T
+				for i := uint64(0); i < x.Len.C; i++ {
+					ascii = tb.And(ascii, tb.Ult(e.sliceAt(x, tb.Const(64, i)), tb.Const(8, 0x80)))
+				}
+				for i := uint64(0); i < y.Len.C; i++ {
+					ascii = tb.And(ascii, tb.Ult(e.sliceAt(y, tb.Const(64, i)), tb.Const(8, 0x80)))
+				}
+				if e.Decide(ascii) {
+					if x.Len.C != y.Len.C {
+						return tb.F
+					}
+					lower := func(c *Term) *Term {
+						up := tb.And(tb.Ule(tb.Const(8, 'A'), c), tb.Ule(c, tb.Const(8, 'Z')))
+						return tb.Ite(up, tb.Add(c, tb.Const(8, 32)), c)
+					}
+					r := tb.T
+					for i := uint64(0); i < x.Len.C; i++ {
+						ci := tb.Const(64, i)
+						r = tb.And(r, tb.Eq(lower(e.sliceAt(x, ci)), lower(e.sliceAt(y, ci))))
+					}
+					return r
+				}
+			}
+			return e.callReal(fr, n, a)
+		})
+	}
 	reg("internal/bytealg.MakeNoZero", func(fr *frame, a []Value) Value {
 		e := fr.e
 		n := a[0].(*Term)
